@@ -58,6 +58,11 @@ CHECKS = {
    note=TB + "IEEE arithmetic, int<->float conversion, regexp matching and time-string parsing (UTC only) enter as oracle functions; idempotence is checked per case, not proved. Fixes d15000c (uint64 bindings) and aa5b77a (duration / fraction) were found here.",
    technique="Coq proof (structural induction + exhaustive operator x kind case analysis) + exhaustive-over-cells correspondence",
    design="5 C09"),
+ "C10": dict(
+   text="Theorem C10_split (all conditions of the class, all points; induction over the condition, using C09's soundness for the folded residual): for every condition built from time comparisons (time on either side of = < <= > >= against integer nanoseconds, durations, floats, RFC3339/date strings, now(), and now()/string +- duration), typed non-time predicates and boolean literals, joined by AND and parentheses and by OR among time-free conditions, whenever ConditionExpr succeeds the condition holds at a point exactly when its timestamp lies in the inclusive range and the residual holds (missing residual = true). Also: strict bounds move by exactly 1 ns and = gives a one-point range (getTimeRange vs the declared instants, incl. the operand swap for literal-OP-time); ranges intersect pointwise; residuals stay typed booleans. Tie: ConditionExpr (residual, Min, Max, MinTimeNano, MaxTimeNano, error-ness) vs model on generated conditions (0-8 bounds, every literal form, both sides, every case spelling of time) and out-of-class inputs; the equivalence itself evaluated on the implementation at and +-1 ns around every bound x all tag combinations with an independent reading of the condition.",
+   note=TB + "Time strings are parsed by Go (oracle), UTC only. The evaluator in the theorem uses float integer division, as C09 does; generated predicates contain no division.",
+   technique="Coq proof (induction over conditions, built on the C09 soundness theorem) + generated correspondence and boundary-point evaluation",
+   design="5 C10"),
  "C03": dict(
    text="Theorems (all chains, all operands, by induction): the tree ParseExpr's right-spine insertion builds from a chain yields the chain in order and is Grouped (left children bind at least as tight, right children strictly tighter); there is exactly one Grouped tree per chain; the function on real BinaryExpr nodes builds that tree for every operand parseUnaryExpr can return; precedence/isOperator tables by computation over the whole enumeration; right spine <= 5. Tie: token table compared exhaustively with the running code; every chain of <=3 (thorough <=4) operators over all 18 spellings plus random chains with parenthesised, negated and literal operands compared (ParseExpr vs model, composed from separately parsed operands) and checked directly against the documented five-level reading and against re-parsing of the printed tree.",
    note=TB + "Re-printing is guarded by the known finding C02-neg-rhs (unary sign desugared without ParenExpr).",
